@@ -940,7 +940,7 @@ def _r8_ensure_type(ctx):
     for shp, have, accept in (((0,), (2,), False), ((3,), (2,), False), ((2,), (2,), True), ((None,), (2,), True), ((0, 3), (2, 3), False), ((None, 3), (2, 3), True), ((2, None), (2, 4), True), ((2, 3), (2, 4), False)):
         desc = "ensure_type(array of shape %s, shape=%s) is %s" % (have, shp, "accepted" if accept else "refused")
         try:
-            ts = TenSym({}, models=models)
+            ts = TenSym({}, funcs={q_: f_ for q_, f_ in ctx.py.mod(rel).functions.items() if "." not in q_ and q_ != "ensure_type"}, models=models)      # private helpers of the module are evaluated from their source
             r = ts.run_fn(fn, val=Ten.sym("t", have), dtype="float32", ndim=len(have), name="time", shape=shp, can_be_none=True, warn_on_cast=False, add_newaxis_on_deficient_ndim=True, length=None)
             ctx.decide(accept and isinstance(r, Ten) and r.shape == have, "C19-R8", fn, rel, "ensure_type", desc, "", "an array of shape %s passes the check against %s: a write whose arrays have different numbers of frames is not refused" % (have, shp))
         except Raised as e:
